@@ -21,7 +21,7 @@ CLAIMED['C18'] = dict(
          'underlying stream returns a free number of bytes (chunking is a solver variable), allocation sizes are observed at '
          'MakeSlice. Round trip incl. buffer reuse, limit+1 refusal without over-allocation, and a differential reference '
          'decoder on arbitrary streams; every Go run-time panic on any path is a violation.',
-    note='Bounds: <=2 frames, bodies <=2 (quick) / <=3 (thorough) bytes, arbitrary streams <=5/8 bytes (varint) and <=7/10 (uint32), '
+    note='Bounds: <=2 frames, bodies <=2 (quick) / <=3 (thorough) bytes, arbitrary streams <=5/7 bytes (varint) plus 10..11 (9..12) bytes for one long header, and <=7/10 (uint32), '
          'maxSize 0..4. proto.Marshal/Unmarshal are contracts (copy the body). Outside: 2048-byte limit with long frames, gogo MarshalTo fast path.',
     design='6/C18')
 CLAIMED['C15'] = dict(
@@ -165,6 +165,36 @@ CLAIMED['C08'] = dict(
     note=TA + 'Bounds: 1 sender, 1..2 entries (quick) / ..3 and a duplicate arrival (thorough), preemption bound per job (labels [pre<=k]). Assumes sequential consistency and data-race freedom '
          'w.r.t. the synchronisation operations; the OrbitDB constructor and event bus are not executed (the harness starts the same goroutine bodies); several senders and batch events are outside.',
     design='4b, 6/C08', technique='forking symbolic execution of go/ssa with a symbolic scheduler (context-bounded) + SMT (z3)')
+
+
+# ---- additions made while hardening the checks against seeded changes (DESIGN section 9)
+CLAIMED['C01']['text'] += (' Also: the same forged entry opened a second time (retry) is still rejected; two concurrent SealEnvelope calls of one device '
+                           '(symbolic scheduler, DESIGN 4b) yield envelopes that all open at the receiver with distinct counters.')
+CLAIMED['C03']['text'] += (' Replay: after the genuine event of the honest signers was opened, a free envelope that is accepted and names an honest key '
+                           'carries exactly the payload that key signed.')
+CLAIMED['C04']['text'] += (' A third replica receives a free subset of the log first and the rest later (two index passes). Devices family: three devices, two of one member, '
+                           'announcing in a free order in a multi-member group; same members / devices / sent secrets on every replica.')
+CLAIMED['C05']['text'] = CLAIMED['C05']['text'].replace(' Cryptographic half of the property only.', '') + (
+    ' Distribution half at the level of the metadata store and group context: real MetadataStore + index + GroupContext handlers (handleGroupMetadataEvent, '
+    'sendSecretsToExistingMembers, fillMessageKeysHolderUsingPreviousData, AddDeviceToGroup, SendSecret) over the log contract, replication = hand-over of the same entries; '
+    'free activation / replication steps followed by the closure; at quiescence every device holds the chain key of every device.')
+CLAIMED['C05']['note'] = TA + ('2-3 devices (one or two members, a late second device of a member), 0..3 free steps, closure rounds bounded (fixpoint asserted). '
+                               'The OrbitDB event bus and real replication are NOT executed (log contract).')
+CLAIMED['C06']['text'] += (' After the handshake: contactRequestsManager.handleIncomingRequest with the handshake result an arbitrary authenticated key and the announced contact free: '
+                           'whatever is recorded is a request of exactly that key.')
+CLAIMED['C09']['text'] += (' The same contract, and the first use of a group (two concurrent GetShareableChainKey while the own chain key does not exist yet), under the symbolic '
+                           'scheduler inside the interpreter (DESIGN 4b): every envelope opens at a receiver that registered the announcement it was given.')
+CLAIMED['C11']['text'] += (' Isolation: a multi-member group with a FREE identifier (possibly a contact account key) used before/after changes neither the contact group nor the member key.')
+CLAIMED['C12']['text'] += (' The descriptor is also derived from a group carrying FREE optional public fields (signing key, link key, its signature).')
+CLAIMED['C13']['text'] += (' The same order-source check for MessageStore.ListEvents (messages of one sender, key known, log processed).')
+CLAIMED['C13']['note'] = CLAIMED['C13']['note'].replace('MessageStore.ListEvents (same two lines; needs the message pipeline), ', '')
+CLAIMED['C14']['text'] += (' Sliding: in-order log delivery with the references updated after each message, then a push strictly inside the reference window around the last counter seen.')
+CLAIMED['C15']['text'] += (' The concurrent contract is decided a second time by the symbolic scheduler inside the interpreter (DESIGN 4b) with the real container/list.')
+CLAIMED['C16']['text'] += (' All three components are also decided by the symbolic scheduler inside the interpreter (DESIGN 4b); the connectedness manager with its real maps '
+                           '(associate / update / both / cancel); in the quick tier its BMC jobs are replaced by these.')
+CLAIMED['C16']['technique'] = 'bounded model checking with symbolic schedules + forking symbolic execution with a symbolic scheduler (context-bounded), SMT (z3)'
+CLAIMED['C19']['text'] += (' ActivateGroup for a free / known contact / known multi-member / account group id up to the OrbitDB open (contract: error), DeactivateGroup with nothing open.')
+CLAIMED['C20']['text'] += (' Both decoding APIs of the CBOR library are contracts with their documented behaviour (Decode recomputes the identifier; NewBlockWithCid + DecodeBlock trust it).')
 
 NOT_APPLICABLE = {}
 ALL = ['C%02d' % i for i in range(1, 21)]
